@@ -385,8 +385,8 @@ def _chain_body(case, R, mspec, model, grid, g, lev, rng, is_copula):
         origin_state = tuple([0] * d)
         states = list(want)
     lam = sum(want.values())
-    if lam < 1e-9:
-        R.skip("chain intensity below 1e-9: cell masses under the resolution of the closed forms")
+    if lam < W.resolution_floor(mspec):
+        R.skip("chain intensity below 1e-9 (or a millionth of the model's intensity): cell masses under the resolution of the closed forms")
         return
     order = sorted(want)
     target = np.array([max(want[s], 0.0) / lam for s in order])
@@ -410,6 +410,9 @@ def _chain_body(case, R, mspec, model, grid, g, lev, rng, is_copula):
             continue
         sampler = proc.sampling
         tol_o = (1e-8 * target + 1e-12) if not is_copula else (1e-7 + 0 * target)
+        # closed-form masses of a compound-Poisson measure are differences of distribution functions: absolute rounding ~1e-16 x the total
+        # intensity of the MODEL, i.e. 4e-16 x that intensity / the intensity of the chain on the scale of the probabilities
+        tol_o = tol_o + 4e-16 * (W.resolution_floor(mspec) / 1e-6 if W.resolution_floor(mspec) > 1e-9 else 0.0) / lam
         if method == "BINARYSEARCHTREEADAPTED1D" and ctor == "probstep":
             # this sampler uses its own (arithmetic) cells: C01 judges the tiling; here only exactness/history are judged
             tol_o = np.full(K, 2.0)
